@@ -57,6 +57,21 @@ NrdVersion     == 4       \* first header version that may carry NRD kernels (HF
 
 Kinds == {"plain", "hl", "nrd", "cb"}
 
+\* ---- magnitudes.  TLC integers are 32 bit, so an amount is written in three "digits":
+\*   v = a + 1000*b + 1000000*c   stands for   a * 15 grin  +  b * (2^40-1) nanogrin  +  c * 1 nanogrin
+\* (the harness maps the digits; every amount below 1000 means what it always meant).  2^40-1 nanogrin
+\* (~1099.5 grin) is FeeFields::FEE_MASK, the largest fee ONE kernel can carry; the fee of a body is the
+\* SUM over its kernels and is not bounded by it.  Sums of amounts are sums of digits as long as no digit
+\* exceeds 99 (AmountOk), which the generator respects and WellFormed demands of corrupted bodies.
+MaxFee == 1000
+Nano   == 1000000
+DigitA(v) == v % 1000
+DigitB(v) == (v \div 1000) % 1000
+DigitC(v) == v \div 1000000
+AmountOk(v) == v >= 0 /\ DigitA(v) <= 99 /\ DigitB(v) <= 99 /\ DigitC(v) <= 99
+\* FeeFields::try_from: 1..FEE_MASK (zero is the harness' FeeFields::zero())
+FeeFieldsOk(f) == f = 0 \/ f = MaxFee \/ (AmountOk(f) /\ DigitB(f) = 0 /\ DigitA(f) <= 73)
+
 \* ---- arithmetic helpers
 SeqSum(s) == FoldLeft(LAMBDA acc, e : acc + e, 0, s)
 Map(s, F(_)) == [i \in 1..Len(s) |-> F(s[i])]
@@ -103,11 +118,17 @@ RuleSignatures(b) == \A i \in 1..Len(b.kerns) : b.kerns[i].sg
 RuleLockHeights(b, c) == \A i \in 1..Len(b.kerns) : b.kerns[i].kind = "hl" => b.kerns[i].lock <= c.height
 RuleNrdVersion(b, c) ==
   (\E i \in 1..Len(b.kerns) : b.kerns[i].kind = "nrd") => (c.nrd /\ c.ver >= NrdVersion)
+\* Block::total_fees(): the plain u64 sum of the kernel fees (TransactionBody::fee(); saturating, but
+\* 2^64 is out of reach: a block holds at most 40000/3 kernels of at most 2^40-1 nanogrin each).
+\* The careless variant reads the total through FeeFields (aggregate_fee_fields), which refuses a total
+\* above the single-kernel limit, and falls back to 0 (probe configuration MC_TxBalance_feeprobe).
+FeeViaFeeFields(b) == IF Fee(b) > MaxFee THEN 0 ELSE Fee(b)
+BlockTotalFees(b) == Fee(b)
 \* Block::verify_coinbase: sum(coinbase outputs) - (Reward + fees)*H = sum(coinbase kernel excesses)
 RuleCoinbase(b) ==
   LET cbo == Filter(b.outs, OutCb)
       cbk == Filter(b.kerns, KernCb)
-  IN  <<Sum(cbo, V) - (Reward + Fee(b)), Sum(cbo, R)>> = <<0, Sum(cbk, X)>>
+  IN  <<Sum(cbo, V) - (Reward + BlockTotalFees(b)), Sum(cbo, R)>> = <<0, Sum(cbk, X)>>
 \* Committed::verify_kernel_sums(overage, offset):
 \*   sum(outputs) - sum(inputs) + overage*H = sum(kernel excesses) + offset*G
 RuleKernelSums(b, overage, offset) ==
@@ -202,10 +223,13 @@ NonDec(s) == \A i \in 1..(Len(s) - 1) : s[i] <= s[i + 1]
 KindIx(k) == CASE k = "plain" -> 1 [] k = "hl" -> 2 [] k = "nrd" -> 3 [] OTHER -> 4
 TxKinds == {"plain", "hl", "nrd"}
 
+\* big = TRUE: the fee-magnitude groups (1..3 kernels with fees from FeeClasses, one input per kernel)
+BigGroups == {[as |-> a, ni |-> k, no |-> 1, nk |-> k, big |-> TRUE] : a \in {"tx", "block"}, k \in 1..3}
 Groups ==
-  {g \in [as : {"tx", "block"}, ni : 0..MaxIn, no : 0..MaxOut, nk : 0..MaxKern] :
+  {g \in [as : {"tx", "block"}, ni : 0..MaxIn, no : 0..MaxOut, nk : 0..MaxKern, big : {FALSE}] :
      IF g.as = "tx" THEN g.ni >= 1 /\ g.nk >= 1
      ELSE (g.nk = 0 <=> g.ni = 0) /\ (g.ni = 0 => g.no = 0)}
+  \cup BigGroups
 
 \* values, kernel kinds and fees of the transaction part; balanced by construction
 NonDecSeqs(n) == {s \in [1..n -> Vals] : NonDec(s)}
@@ -213,7 +237,15 @@ KernelConfigs(n) ==
   {kf \in [kinds : [1..n -> TxKinds], fees : [1..n -> Fees]] :
      /\ \A i \in 1..(n - 1) : KindIx(kf.kinds[i]) <= KindIx(kf.kinds[i + 1])
      /\ \A i \in 1..(n - 1) : kf.kinds[i] = kf.kinds[i + 1] => kf.fees[i] <= kf.fees[i + 1]}
+\* fee classes: one nanogrin, one model unit, the largest fee a single kernel can carry
+FeeClasses == {Nano, 1, MaxFee}
+BigKinds == <<"plain", "hl", "nrd">>
+\* kernel i pays fees[i] out of an input of its own that carries fees[i] + one unit; the units go to one output
+BigValueChoices(g) ==
+  {[vin |-> [i \in 1..g.nk |-> f[i] + 1], vout |-> <<g.nk>>, kinds |-> [i \in 1..g.nk |-> BigKinds[i]], fees |-> f] :
+     f \in {h \in [1..g.nk -> FeeClasses] : NonDec(h)}}
 AllValueChoices(g) ==
+  IF g.big THEN BigValueChoices(g) ELSE
   {[vin |-> t[1], vout |-> t[2], kinds |-> t[3].kinds, fees |-> t[3].fees] :
      t \in {u \in NonDecSeqs(g.ni) \X NonDecSeqs(g.no) \X KernelConfigs(g.nk) :
               SeqSum(u[1]) = SeqSum(u[2]) + SeqSum(u[3].fees)}}
@@ -227,7 +259,27 @@ MkKernel(kind, fee, x, sid) ==
 Blinds == 1..NBlind
 Cyc(i, a) == 1 + ((i - 1 + a) % NBlind)
 
+\* bases of the fee-magnitude groups: input blinds 1..nk, the output under blind 20, the coinbase under 9
+BigBases(g, w) ==
+  LET ins  == [i \in 1..g.nk |-> [v |-> w.vin[i], r |-> i]]
+      outs == << [v |-> w.vout[1], r |-> 20, cb |-> FALSE, pf |-> TRUE] >>
+      rin  == (g.nk * (g.nk + 1)) \div 2
+      Kx(off) == [i \in 1..g.nk |-> IF i < g.nk THEN i ELSE 20 - rin - off - ((g.nk - 1) * g.nk) \div 2]
+      txk(off) == [i \in 1..g.nk |-> MkKernel(w.kinds[i], w.fees[i], Kx(off)[i], i)]
+      fees == SeqSum(w.fees)
+  IN  IF g.as = "tx"
+      THEN {[body |-> [ins |-> ins, outs |-> outs, kerns |-> txk(off), off |-> off],
+             ctx |-> [as |-> "tx", prev |-> 0, total |-> 0, height |-> Height, ver |-> NrdVersion, nrd |-> TRUE]] :
+              off \in Offsets}
+      ELSE {[body |-> [ins |-> ins,
+                       outs |-> Append(outs, [v |-> Reward + fees, r |-> 9, cb |-> TRUE, pf |-> TRUE]),
+                       kerns |-> Append(txk(off), MkKernel("cb", 0, 9, g.nk + 1)),
+                       off |-> 0],
+             ctx |-> [as |-> "block", prev |-> prev, total |-> prev + off, height |-> Height,
+                      ver |-> NrdVersion, nrd |-> TRUE]] : off \in Offsets, prev \in PrevOffsets}
+
 AllBases(g, w) ==
+  IF g.big THEN BigBases(g, w) ELSE
   LET Rin(p)  == [i \in 1..g.ni |-> Cyc(i, p.pat[1])]
       Rout(p) == [i \in 1..g.no |-> Cyc(i, p.pat[2])]
       Ins(p)  == [i \in 1..g.ni |-> [v |-> w.vin[i], r |-> Rin(p)[i]]]
@@ -273,9 +325,9 @@ HasNrd(b) == \E i \in Idx(b.kerns) : b.kerns[i].kind = "nrd"
 
 \* A model body can be realised iff amounts are non-negative and no kernel excess is the zero scalar.
 WellFormed(b) ==
-  /\ \A i \in Idx(b.ins) : b.ins[i].v >= 0
-  /\ \A i \in Idx(b.outs) : b.outs[i].v >= 0
-  /\ \A i \in Idx(b.kerns) : b.kerns[i].x # 0 /\ b.kerns[i].fee >= 0
+  /\ \A i \in Idx(b.ins) : AmountOk(b.ins[i].v)
+  /\ \A i \in Idx(b.outs) : AmountOk(b.outs[i].v)
+  /\ \A i \in Idx(b.kerns) : b.kerns[i].x # 0 /\ b.kerns[i].fee >= 0 /\ FeeFieldsOk(b.kerns[i].fee)
 
 RawCorruptions(b, c) ==
   \* amount +-1 on an output / input (proof regenerated for the new amount: only the sums can tell)
@@ -326,6 +378,15 @@ RawCorruptions(b, c) ==
                 [b EXCEPT !.outs = Append(@, [v |-> Reward, r |-> 2, cb |-> TRUE, pf |-> TRUE]),
                           !.kerns = Append(@, MkKernel("cb", 0, 2, NewSid(b)))], c)}
         ELSE {})
+  \* the fees the block collects are paid to an ordinary output: the coinbase claims the bare subsidy and a
+  \* plain output with a plain kernel of its own picks up the fees (every sum still balances)
+  \cup (IF c.as = "block" /\ Fee(b) > 0
+        THEN {C("fees_paid_to_plain_output",
+                [[b EXCEPT !.outs[i].v = @ - Fee(b)]
+                    EXCEPT !.outs = Append(@, [v |-> Fee(b), r |-> 5, cb |-> FALSE, pf |-> TRUE]),
+                           !.kerns = Append(@, MkKernel("plain", 0, 5, NewSid(b)))], c) :
+                i \in {j \in Idx(b.outs) : b.outs[j].cb /\ b.outs[j].v >= Reward + Fee(b)}}
+        ELSE {})
   \* reward over-claim by a non-coinbase output: one unit moves from the coinbase output to a plain one
   \cup {C("reward_overclaim_plain_output", [b EXCEPT !.outs[i].v = @ + 1, !.outs[j].v = @ - 1], c) :
           i \in {m \in Idx(b.outs) : ~b.outs[m].cb}, j \in {m \in Idx(b.outs) : b.outs[m].cb /\ b.outs[m].v > 0}}
@@ -358,7 +419,7 @@ AlwaysRefused == {
   "kernel_duplicated_identical", "kernel_duplicated_resigned", "kernel_foreign",
   "coinbase_flag_set_output", "coinbase_flag_cleared_output", "coinbase_flag_set_kernel",
   "coinbase_flag_cleared_kernel", "coinbase_forged_value", "coinbase_minted_in_tx",
-  "reward_overclaim_plain_output", "proof_swapped", "signature_swapped", "input_duplicated",
+  "reward_overclaim_plain_output", "fees_paid_to_plain_output", "proof_swapped", "signature_swapped", "input_duplicated",
   "output_duplicated", "spends_own_output", "lock_height_future", "nrd_before_hf3", "nrd_disabled"}
 
 -----------------------------------------------------------------------------
@@ -368,7 +429,7 @@ NoBody == [ins |-> <<>>, outs |-> <<>>, kerns |-> <<>>, off |-> 0]
 NoCtx  == [as |-> "tx", prev |-> 0, total |-> 0, height |-> Height, ver |-> NrdVersion, nrd |-> TRUE]
 
 Init ==
-  /\ phase = "root" /\ grp = [as |-> "tx", ni |-> 0, no |-> 0, nk |-> 0] /\ vals = <<>>
+  /\ phase = "root" /\ grp = [as |-> "tx", ni |-> 0, no |-> 0, nk |-> 0, big |-> FALSE] /\ vals = <<>>
   /\ body = NoBody /\ ctx = NoCtx /\ applied = <<>>
 
 ChooseGroup ==
